@@ -35,8 +35,8 @@ RULE = ("templates rendered from a random item tree: text / ## comments / <%doc>
 ASSUMPTIONS = [
     "the Python-level call finders (babel.messages.extract.extract_python, lingua.extractors.python) are oracles: "
     "the model receives their answers for the strings it hands over; their own correctness is outside the property",
-    "since 5365b81 an expression with filters is handed to the finder as '(code), (filters,)'; the model builds that "
-    "string itself from Expression.code.code and Expression.escapes",
+    "since 5365b81/ca5ce72 an expression with filters is handed to the finder as '(code), (<line breaks>filters,)'; the "
+    "model builds that string itself from Expression.code.code, .escapes and .escapes_lineno_offset",
     "planted calls keep the function name, the opening parenthesis and the first message literal on one line, so "
     "'the line on which the call is written' is unambiguous",
     "generated Python is syntactically valid (mako's lexer parses every fragment while building the tree)",
@@ -45,7 +45,7 @@ ASSUMPTIONS = [
 ]
 TRUSTED_EXTRA = [
     "C20: serialisation of the real parse tree (kind, lineno, the code field extract_nodes reads for that kind, "
-    "escapes, text, node.nodes) in harness/props/C20.py",
+    "escapes, escapes_lineno_offset, text, node.nodes) in harness/props/C20.py",
     "C20: Basic/Unicode.lean's str.isspace / \\s tables are regenerated from the running interpreter (group Unicode)",
 ]
 REGEN = ["Unicode"]
@@ -531,7 +531,7 @@ class Render:
                     self.w(" |" + ("\n   " if f["nl"] else " ") + f["src"])
                     for m in f["calls"]:
                         d = dict(m)
-                        d.update(kind="expr-filter", in_filter=True, hidden=hidden, late=bool(f["nl"]), lead=0, cidx=len(self.constructs) - 1,
+                        d.update(kind="expr-filter", in_filter=True, hidden=hidden, late=False, lead=0, cidx=len(self.constructs) - 1,
                                  rec_off=(e["lead"] + e["body"]["src"] + e["trail"]).count("\n") + _nl_before(f["src"], m["key"]))
                         self.calls[m["key"]] = d
                         c["keys"].append(m["key"])
@@ -833,6 +833,7 @@ class Impl:
         pt = self.pt
         kids = []
         code = esc = text = ""
+        off = 0
         if isinstance(n, pt.Text):
             kind, text = "text", n.content
         elif isinstance(n, pt.Comment):
@@ -852,10 +853,10 @@ class Impl:
         elif isinstance(n, pt.Code):
             kind, code = "code", n.code.code
         elif isinstance(n, pt.Expression):
-            kind, code, esc = "expr", n.code.code, n.escapes
+            kind, code, esc, off = "expr", n.code.code, n.escapes, getattr(n, "escapes_lineno_offset", 0)
         else:
             kind, kids = "other", getattr(n, "nodes", [])
-        return (kind, n.lineno, code, esc, text, [self.ser(k) for k in kids])
+        return (kind, n.lineno, code, esc, off, text, [self.ser(k) for k in kids])
 
 
 def lingua_payload(m):
@@ -880,8 +881,8 @@ def enc_tree(nodes):
     toks = [str(len(nodes))]
 
     def go(n):
-        kind, ln, code, esc, text, kids = n
-        toks.extend([kind, str(ln), enc(code), enc(esc), enc(text), str(len(kids))])
+        kind, ln, code, esc, off, text, kids = n
+        toks.extend([kind, str(ln), enc(code), enc(esc), str(off), enc(text), str(len(kids))])
         for k in kids:
             go(k)
     for n in nodes:
@@ -1523,7 +1524,7 @@ def corr(ctx, impl, cases):
         def kinds(nodes):
             for n_ in nodes:
                 ctx.branch("corr:node:" + n_[0])
-                kinds(n_[5])
+                kinds(n_[6])
         if f == "babel":
             kinds(w["tree"])
             ctx.branch("corr:enc:" + w["case"]["enc_mode"])
@@ -1608,6 +1609,10 @@ def witness_cases():
         case([_cm("TR: x"), _x("_('m8 w')", [_c("m8 w")])], ("TR", "TR:")),
         # F-C20-7
         case([_cm("TR: a\x0cb"), {"t": "blank", "n": 1, "ws": False}, _x("_('m9 w')", [_c("m9 w")])]),
+        # repaired (must stay repaired): filter list on the line after the '|' (ca5ce72)
+        case([_x("_('m10 w')", [_c("m10 w")], {"src": "f(_('m11 w'))", "calls": [_c("m11 w")], "nl": True})]),
+        # repaired: codec configured as input_encoding only (0b42cfd)
+        dict(case([_x("_('m12 K\u00f6ln')", [_c("m12 K\u00f6ln")])]), enc_mode="inopt:latin-1"),
     ]
 
 
